@@ -342,6 +342,13 @@ def eval_failing_multi(module_imports, cases_terms, checkers, name, shard=None, 
     shards = [cases_terms[i:i + shard] for i in range(0, len(cases_terms), shard)]
     d = os.path.join(BUILD, "cases")
     os.makedirs(d, exist_ok=True)
+    for f in os.listdir(d):      # drop debugging leftovers of earlier runs
+        fp = os.path.join(d, f)
+        try:
+            if time.time() - os.path.getmtime(fp) > 3600:
+                os.remove(fp)
+        except OSError:
+            pass
     idx = 0
     running = []
     failing = {c: [] for c in checkers}
